@@ -81,7 +81,19 @@ def gen(ctx):
 
 def run(ctx):
     cases, empties = gen(ctx)
-    obs = ctx.run_impl(cases, 'readcode')
+    # all arrays of one numeric type go through ONE child process, in rank order (state carried
+    # from one array to the next of the same type would show): 13 shards, one per type
+    groups = {}
+    for c in cases:
+        groups.setdefault(c['dtype'][1:], []).append(c)
+    glist = list(groups.values())
+    width = max(len(g) for g in glist)
+    order = []
+    for j in range(width):
+        for g in glist:
+            order.append(g[j] if j < len(g) else g[-1])
+    cases = order
+    obs = ctx.run_impl(cases, 'readcode', shards=len(glist))
     terms, keep = [], []
     for case, ob in zip(cases, obs):
         key0 = dict(dtype=case['dtype'], shape=case['shape'])
